@@ -18,13 +18,14 @@ import (
 // VerifC13NewRateLimiter builds a rate limiter with the REAL constructor (real leader elector, real callback
 // wiring) and then replaces the informer-backed upstream controller by uc, whose lister the harness scripts.
 // Nothing is started (no Run): the harness calls the callbacks and entry points itself.
-func VerifC13NewRateLimiter(gatewayClient gatewayclientset.Interface, client kubernetes.Interface, opts options.RateLimitOptions, uc controller.UpstreamController) (RateLimiter, error) {
+func VerifC13NewRateLimiter(gatewayClient gatewayclientset.Interface, client kubernetes.Interface, opts options.RateLimitOptions, uc controller.UpstreamController) (RateLimiter, controller.UpstreamController, error) {
 	rl, err := NewRateLimiter(gatewayClient, client, opts)
 	if err != nil {
-		return nil, err
+		return nil, nil, err
 	}
+	unused := rl.(*rateLimiter).upstreamController // never run; the caller may shut its queue down
 	rl.(*rateLimiter).upstreamController = uc
-	return rl, nil
+	return rl, unused, nil
 }
 
 // VerifC13Elector returns the limiter's leader elector.
